@@ -588,7 +588,7 @@ pub fn walk_node_for_targets(targets: &HashSet<Target>, node: Node) -> Vec<Node>
                 matches.append(&mut walk_node_for_targets(targets, expression.into()));
             }
 
-            pt::Statement::Try(_, expression, option_paramlist_box_statement, _) => {
+            pt::Statement::Try(_, expression, option_paramlist_box_statement, catch_clauses) => {
                 matches.append(&mut walk_node_for_targets(targets, expression.into()));
 
                 if option_paramlist_box_statement.is_some() {
@@ -604,6 +604,28 @@ pub fn walk_node_for_targets(targets: &HashSet<Target>, node: Node) -> Vec<Node>
                     }
 
                     matches.append(&mut walk_node_for_targets(targets, box_statement.into()));
+                }
+
+                //Walk every catch clause: the type of its parameter, then its body
+                for catch_clause in catch_clauses {
+                    match catch_clause {
+                        pt::CatchClause::Simple(_, option_param, statement) => {
+                            if option_param.is_some() {
+                                matches.append(&mut walk_node_for_targets(
+                                    targets,
+                                    option_param.unwrap().ty.into(),
+                                ));
+                            }
+
+                            matches.append(&mut walk_node_for_targets(targets, statement.into()));
+                        }
+
+                        pt::CatchClause::Named(_, _, param, statement) => {
+                            matches.append(&mut walk_node_for_targets(targets, param.ty.into()));
+
+                            matches.append(&mut walk_node_for_targets(targets, statement.into()));
+                        }
+                    }
                 }
             }
 
